@@ -361,3 +361,34 @@ Lemma validate_rejects :
   validateSpec 0 8 1 [1; 2] 0 0 [(999, 1200); (0, 1200)] 1280 = true /\  (* Chrome_146 with a plan *)
   validateSpec 3 8 0 [] 1 1357 [] 1280 = true.                        (* Firefox_116A *)
 Proof. vm_compute. repeat split; reflexivity. Qed.
+
+(** * validate, complete: the flight is realisable *)
+
+(** what dial now refuses in addition (audit round): a synthesised token that leaves no room
+    for a CRYPTO byte (was: nothing sent, the dial timed out without an error) and a
+    CryptoLength its packet cannot hold (was: the stream was silently cut elsewhere, e.g. at
+    1241 instead of 1300) *)
+Lemma validate_room_regression :
+  validateSpec 0 8 1 [] 1 0 [] 1280 = true /\ validateSpecT 0 8 1 [] 1 0 [] 1280 1300 = false /\
+  validateSpecT 0 8 1 [] 1 0 [] 1280 1240 = true /\
+  validateSpec 0 8 1 [] 1 0 [(1300, 0)] 1280 = true /\ validateSpecT 0 8 1 [] 1 0 [(1300, 0)] 1280 0 = false /\
+  validateSpecT 0 8 1 [] 1 0 [(1160, 1200)] 1280 0 = false /\
+  validateSpecT 0 8 1 [1; 2] 0 0 [(999, 1200); (0, 1200)] 1280 70 = true /\
+  validateSpecT 3 8 0 [] 1 1357 [] 1280 0 = true.
+Proof. vm_compute. repeat split; reflexivity. Qed.
+
+Lemma validateSpecT_spec scid dcid ipn lens single udpMin plans maxPacket tokLen :
+  validateSpecT scid dcid ipn lens single udpMin plans maxPacket tokLen = true ->
+  validateSpec scid dcid ipn lens single udpMin plans maxPacket = true /\
+  let mh := maxHdrLen scid dcid lens single tokLen in
+  mh + 20 <= maxPacket /\
+  Forall (fun p => mh + 20 <= planLimit maxPacket p /\
+                   (0 < fst p -> mh + 1 + 4 + vlen (fst p) + fst p < planLimit maxPacket p - 16)) plans.
+Proof.
+  unfold validateSpecT, roomOk. intros H.
+  apply andb_prop in H as [Hv H]. apply andb_prop in H as [H H3]. apply andb_prop in H as [H1 H2].
+  split; [exact Hv|]. cbv zeta. split; [lia|].
+  rewrite forallb_forall in H2, H3. apply Forall_forall. intros p Hp.
+  specialize (H2 p Hp). specialize (H3 p Hp). split; [lia|].
+  intros Hpos. apply Bool.orb_prop in H3. destruct H3 as [E|E]; lia.
+Qed.
